@@ -301,3 +301,43 @@ def e6_reducer_never_enqueues(ctx, rep):
             bad += 1
             rep.bad(R, "enqueue-on-reducer-thread:" + short(s.body.path), s.where, "the reducer thread enqueues into the dispatch queue it consumes")
     rep.ok(R, "no-self-enqueue", "", "no synchronous dispatch/enqueue on the reducer thread (%d found)" % bad) if not bad else None
+
+
+def e7_vector_untouched_between_hooks_and_drain(ctx, rep):
+    """on the reducer thread the effects vector is only pushed to by the reducer arms, measured,
+    shown to the before_effect hooks and drained: the store never removes or replaces effects"""
+    R = "E7"
+    A = ctx.A
+    P = _pipe(ctx)
+    G = P.G
+    ev = getattr(ctx, "_effects_vec", None)
+    if ev is None:
+        from mirq.report import Report
+        e1_collect(ctx, Report("tmp"))
+        ev = getattr(ctx, "_effects_vec", None)
+    if ev is None:
+        rep.anchor_missing(R, "effects vector")
+        return
+    vec = ev[1]
+    takers = {(s.body.path, s.bb) for s in _taker_sites(ctx)}
+    ALLOWED = {"push", "len", "is_empty", "deref", "deref_mut", "as_ref", "as_mut", "iter", "capacity", "new"}
+    n = 0
+    for k, nd in G.nodes.items():
+        t = nd.body.blocks[nd.bb]["term"]
+        if t["k"] != "call":
+            continue
+        from mirq.program import Site
+        s = Site(nd.body, nd.bb, t)
+        if s.fn is None or not s.term["args"]:
+            continue
+        a0 = P.I.in_context(k[0], nd.body, ctx.prog.bp(nd.body).arg_term(nd.bb, 0))
+        if not any(strip_wrap(st) == vec for st in subterms(a0)):
+            continue
+        m = s.ck.split("::")[-1]
+        if not (s.ck.startswith("std::vec::Vec::") or s.ck.startswith("core::slice::") or s.ck.startswith("std::mem::")):
+            continue
+        n += 1
+        if (nd.body.path, nd.bb) in takers:
+            continue
+        rep.check(m in ALLOWED, R, "effects-vector-op:%s:%s" % (m, short(nd.body.path)), s.where, "%s on the effects vector" % m, "the store calls %s on the effects vector outside the hand-over loop: effects a middleware left in place are dropped/changed" % m)
+    rep.floor(R, "operations on the effects vector", n, 4)
